@@ -29,9 +29,13 @@ class _BitVector(type):
 
     @_intrinsic
     def __getitem__(cls, size: int | slice):
-        # A vector type with a width cannot be parametrised again, the result
-        # would be cached as a subclass of the first parametrisation.
-        assert not hasattr(cls, "_width"), f"{cls} already has a width"
+        if hasattr(cls, "_width"):
+            # Parametrising a type that already has a width selects a member of the same
+            # family (BitVector, Signed or Unsigned). The result is not derived from the
+            # parametrised type, it would be cached as a subclass of that width.
+            for base in cls.__mro__:
+                if "_SubTypes" in base.__dict__:
+                    return base[size]
 
         if isinstance(size, slice):
             assert size.step is None, "step parameter not allowed in slice argument"
